@@ -279,6 +279,9 @@ def c03(tier, seed):
     # lock-level stress (own scenario syntax threads:rounds); and list-level contention with several rounds per thread
     stress_sc += [{"scenario": "4:300", "own": True, "count": 40 if quick else 400}, {"scenario": "8:100", "own": True, "count": 40 if quick else 400},
                   {"scenario": "3:1000", "own": True, "count": 10 if quick else 100}]
+    # the generation counter wraps while real threads add and traverse (shipped std::mutex / SpinLock, TSan): D11's territory
+    stress_sc += [{"scenario": s, "only_runners": ["cc_stress_list_mutex", "cc_stress_list_spin"], "count": 150 if quick else 3000}
+                  for s in ["2w1:a,v|a,v|p,f", "2w2:a,a,v|i1,f|r2,a,v"]]
     stress_sc += [{"scenario": "0:a,a,r10,r11,a,r14|a,a,r20,r21,a,r24|a,e,p,o30,v|f,a,r40,e", "every": 2, "count": 100 if quick else 2000}]
     return {"models": models, "runners": RUNNERS_CC, "extra_runners": RUNNERS_HC, "extra_every": 3, "trace_module": "TraceCC", "scenarios": scen,
             "stress_runners": STRESS_CC, "stress_scenarios": stress_sc,
